@@ -13,9 +13,10 @@ def _mk(cat, technique, text, note=''):
 
 
 LEVELS = {
-    'C01': _mk('translation_validation', 'Lean reference semantics + implementation model, differential runs against /repo',
-               'Decided by differential execution: every step of every generated history must give the same value/exception and tree as ' + _SPEC +
-               'and the same decisions as ' + _IMPL + _TIEDESC + 'The refinement theorem Impl ⊑ Spec is not proved yet, so no proof-level claim is made for C01.'),
+    'C01': _mk('proof', 'Lean theorem replay_sound (reuse = re-execution, for all programs, records and trees) + differential runs of FB.Spec / FB.Impl against /repo',
+               'Proved (FB.replay_sound): whenever the cache logic accepts a recorded operation tree (any nesting of queries, build_file and subbuild records, raised or not) in a state, running the recorded function from scratch in that state returns the recorded result and leaves the same virtual tree, claims, outputs and created directories - up to modification times of files (a from-scratch run rewrites outputs). Quantified over every program (interaction tree), every record that follows it, every tree; hypotheses: the record follows the function (function bodies change only with their version), the comparison-mode obligation (a theorem for HASH: faithful_of_hash; the user\'s assumption for METADATA), no injected faults. Corollary at the API edge: C01_subbuild_hit_transparent. ' + _TIEDESC +
+               'Each step of each generated history must give the same value/exception and tree as ' + _SPEC + 'and the same decisions, trees with mtimes and cache file as ' + _IMPL,
+               'NOT yet proved: that a whole build of FB.Impl refines FB.Spec across histories (the induction over builds that establishes `Follows` for every record of the old cache), and completeness. Those rest on the tie.'),
     'C02': _mk('translation_validation', 'snapshot equality (bytes, mtime, inode) around every failing build + FB.Spec oracle',
                'After every failing build of the generated histories the real tree must equal the pre-build snapshot up to the stated latitude and the exception must be the raised object; the following steps are compared with ' + _SPEC + '(where the failed build never ran). ' + _TIEDESC),
     'C03': _mk('translation_validation', 'snapshot of the complement of the managed set around every API call + FB.Spec oracle',
@@ -25,15 +26,15 @@ LEVELS = {
                'Proved on the model for all trees and states: exists = is_file or is_dir, never both, list_dir(d) = {n | exists(d/n)}, error classes of list_dir, targets being built and the cache file are invisible to every query, everything else is seen as on the tree. ' + _TIEDESC +
                'Query-dense generated programs (every query kind, paths of the whole universe, before/inside/after nested build_file calls) compare every answer with the model through the returned accumulators.',
                'That the memoised BuildDirs/CreatedFiles state machine computes this view (L-view of DESIGN 4a) is NOT proved; it rests on the tie.'),
-    'C05': _mk('translation_validation', 'FB.Spec call tree as oracle for justified re-execution + FB.Impl decisions tie',
+    'C05': _mk('translation_validation', 'FB.Spec call tree as oracle for justified re-execution + FB.Impl decisions tie (soundness of the decisions is a theorem, completeness is not yet)',
                'On every unchanged rebuild the real invocation log must be within the set justified by the from-scratch call tree and no output may be rewritten (inode, mtime); in all histories the invocation log must equal the one of ' + _IMPL),
-    'C06': _mk('translation_validation', 'version-map histories against FB.Spec (bodies see their version) and FB.Impl decisions',
-               'Generated call graphs x version maps (absent/None/scalars/nested/reordered): every from-scratch invocation of a changed function and of its transitive callers must be in the real invocation log, results equal the from-scratch results with the new behaviour, JSON-equal version maps re-execute nothing. ' + _TIEDESC),
+    'C06': _mk('proof', 'Lean theorems: a changed version blocks every record mentioning the function at any depth + version-map histories against FB.Spec/FB.Impl',
+               'Proved for all record trees and states (C06_changed_invalidates): if the version of f is not JSON-equal to the previous one, no record whose tree contains an operation of f replays, and the top-level lookups refuse too; JSON-equal versions pass (C06_equal_versions_pass with the laws of C18). Tie/oracle: generated call graphs x version maps (absent/None/scalars/nested/reordered): every from-scratch invocation of a changed function and of its transitive callers must be in the real invocation log, results equal the from-scratch results with the new behaviour, JSON-equal version maps re-execute nothing. ' + _TIEDESC),
     'C07': _mk('translation_validation', 'argument-structure pairs against FB.Json key model (to_hashable/is_equal) through duplicate detection and cache hits',
                'Pairs of argument structures from a JSON grammar (tuples/lists, 1/1.0, True/1, non-string keys, key order, big ints, -0.0, non-BMP) are issued within a build (duplicate RuntimeError iff same key) and across builds (hit iff same key); the callee must receive the round-tripped copy. ' + _TIEDESC,
                'Path spelling half: see evidence (unit comparisons of _sanitize_filename).'),
-    'C08': _mk('translation_validation', 'duplicate placements against FB.Spec/FB.Impl (sequential part)',
-               'Same-level, nested, inside-reused-subtree duplicates with first occurrence cached/rebuilt/failed: RuntimeError, no second invocation, first record/output undisturbed, rejected callers re-executed later. ' + _TIEDESC,
+    'C08': _mk('proof', 'Lean theorems on duplicate rejection and registration by reuse (sequential) + schedule exploration of two threads on the real code',
+               'Proved: a call for a claimed path / JSON-equal subbuild key is rejected with no effect on tree, claims, outputs, pending content and invocation log; reusing a record requires its key unclaimed and claims it; setup_failed records never replay. Tie/oracle: same-level, nested, inside-reused-subtree duplicates with first occurrence cached/rebuilt/failed: RuntimeError, no second invocation, first record/output undisturbed, rejected callers re-executed later. ' + _TIEDESC,
                'Thread clause: all schedules with at most 2 (quick) / 3 (thorough) preemptions of two threads issuing the same build_file path or subbuild key (first cached or not) on the real code, against the sequential outcomes.'),
     'C10': _mk('proof', 'Lean theorems about build_file setup/finish (FB.Spec.bfSetup/bfFinish, shared by FB.Impl) + contract predicates on the real code',
                'Proved for all states: success only if the target is a regular file, failure leaves no file at the target and propagates the same exception (or notCreated), the function starts with the target absent and hidden. ' + _TIEDESC +
@@ -42,8 +43,8 @@ LEVELS = {
     'C12': _mk('proof', 'Lean theorems about clean (FB.Spec.preClean = FB.Impl.clean) + differential runs',
                'Proved for all trees and records: clean changes only recorded outputs that are files, the cache file and recorded created directories, and only by removing them; no-op without cache file; idempotent; the implementation model cleans with the same function. ' + _TIEDESC +
                'clean inserted at random positions of generated histories: tree equals the model, foreign snapshot unchanged.'),
-    'C13': _mk('translation_validation', 'comparison-mode grid against FB.View.cmpResult / FB.Impl decisions',
-               'All (content changed?, metadata changed?) combinations x {input read, output integrity, output read back} x {top level, nested}: HASH-only programs must match the from-scratch result even for same-size same-mtime edits and re-execute nothing on pure timestamp changes; every program must re-execute exactly what ' + _IMPL + 're-executes (METADATA = size and mtime_ns).',
+    'C13': _mk('proof', 'Lean theorems on the comparison results (HASH iff bytes, METADATA iff size+mtime) and their use in replay + comparison-mode grid on the real code',
+               'Proved: HASH results are JSON-equal iff the bytes are equal, METADATA results iff size and mtime_ns are equal; a recorded read replays iff the file is visible with an equal result; a recorded output replays only if the leftover has an equal result. Tie/oracle: all (content changed?, metadata changed?) combinations x {input read, output integrity, output read back} x {top level, nested}: HASH-only programs must match the from-scratch result even for same-size same-mtime edits and re-execute nothing on pure timestamp changes; every program must re-execute exactly what ' + _IMPL + 're-executes (METADATA = size and mtime_ns).',
                'SHA-256 is modelled as injective.'),
     'C15': _mk('proof', 'Lean theorems: refusal is a read-only prefix of build/clean (FB.Spec, FB.Impl) + corruption classes on the real code',
                'Proved for all programs and worlds: when the cache state makes build/clean refuse, the result is an exception, the world is unchanged, nothing is invoked, nothing is written. Real code: byte-level corruption classes of a valid cache file, cache path a directory, name mismatch, every wrong-typed argument position: must raise, tree bit-identical (bytes, mtime, inode), no temp dir left, no user function called. ' + _TIEDESC,
